@@ -14,7 +14,7 @@ EXPLANATION = ("Mode-wise contracts on the real integrands (symbolic eta, x, tau
 ASSUMPTIONS = ["A5 scipy.integrate.quad(f, a, b) returns the integral of f over [a, b] (additive over adjacent intervals); brentq returns a point of its bracket",
                "A6 differentiation under the integral sign and decay as x -> infinity (Riemann-Lebesgue) are cited, not machine-checked; the amplitudes are fixed by the initial condition u = v = 0, which the property statement does not include and this check does not prove",
                "A7 the splitting loops stop at the first sub-interval whose contribution is below 1e-8 and quad runs at epsabs 1e-10: truncation / quadrature error is numerical accuracy, not covered",
-               "clamped end layers eta < 1e-14, eta > 1 - 1e-14 and denominators below 1e-14 are excluded (interior path only)",
+               "clamped end layers eta < 1e-14, eta > 1 - 1e-14 and denominators below 1e-14 are excluded: a path of an integrand is checked iff one of 300 sampled interior points (eta in [0.001,0.999], epsilon in [0.01,20]) takes it",
                "float literal rt3 = 1.7320508075688772 is identified with sqrt(3) after checking |rt3 - sqrt 3| < 1e-15"]
 
 eta = sp.Symbol('eta', positive=True); X = sp.Symbol('x', nonnegative=True); TAU = sp.Symbol('tau', positive=True); EPS = sp.Symbol('epsilon', positive=True)
@@ -26,8 +26,17 @@ def _finfo(*names):
     return [{'ref': '%s::%s' % (MOD, n), 'sha256_16': R.source_hash(R.func_ref('%s::%s' % (MOD, n)))} for n in names]
 
 
+def _samples(n=300):
+    import random
+    rnd = random.Random(core.SEED + 18); out = [dict(WIT)]
+    for _ in range(n):
+        out.append({eta: sp.Rational(rnd.randint(1, 999), 1000), EPS: sp.Rational(rnd.choice([rnd.randint(1, 100), rnd.randint(100, 2000)]), 100), X: sp.Rational(rnd.randint(0, 1000), 100), TAU: sp.Rational(rnd.randint(1, 1000), 100)})
+    return out
+
+
 def part(fname, jwant=None):
-    """interior path of one integrand: (expression, path condition)"""
+    """paths of one integrand that are taken on a non-negligible part of the domain: [(expression, path condition, sample points hitting it)], number of paths.
+    A path hit by none of the sampled interior points (eta in [0.001, 0.999], epsilon in [0.01, 20], x in [0, 10], tau in [0.01, 10]) is a 1e-14 clamp layer and is not checked."""
     fv = R.func_ref('%s::%s' % (MOD, fname))
     def thunk(run):
         run.gstore[(MODNAME, 'posx')] = X; run.gstore[(MODNAME, 'tau')] = TAU; run.gstore[(MODNAME, 'epsilon')] = EPS
@@ -35,9 +44,14 @@ def part(fname, jwant=None):
         I = sx.Interp(run)
         return I.call_func(fv, [eta], {})
     paths = sx.explore(thunk, hyps=[eta < 1], feas=extract.default_feas, max_paths=400)
-    good = [p for p in paths if p.outcome == 'return' and all(alg.eval_cond(c, WIT) for c in p.pc)]
-    if len(good) != 1: raise Unsupported('%s: %d interior paths' % (fname, len(good)))
-    return sp.sympify(good[0].value), list(good[0].pc), len(paths)
+    out = []
+    for p in paths:
+        if p.outcome != 'return': raise Unsupported('%s: a path raises %s' % (fname, p.exc))
+        hits = [q for q in _samples() if all(alg.eval_cond(c, q) for c in p.pc)]
+        if hits: out.append((sp.sympify(p.value), list(p.pc), hits))
+    if not out: raise Unsupported('%s: no path hit by the interior samples' % fname)
+    out.sort(key=lambda e_: -len(e_[2]))
+    return out, len(paths)
 
 
 NATIVE = r"""
@@ -79,31 +93,45 @@ def _fin(o, kind):
 def unit_modes():
     res = {'obligations': [], 'functions': _finfo('upart1', 'upart2', 'vpart1', 'vpart2', 'gamma_one', 'gamma_two', 'gamma_three', 'theta_one', 'theta_two', 'theta_three'), 'engine_errors': []}; O = res['obligations']
     try:
-        U1, h1, n1 = part('upart1'); U2, h2, n2 = part('upart2'); V1, h3, n3 = part('vpart1'); V2, h4, n4 = part('vpart2')
+        PU1, n1 = part('upart1'); PU2, n2 = part('upart2'); PV1, n3 = part('vpart1'); PV2, n4 = part('vpart2')
     except Unsupported as u_:
         O.append(core.Obl('C18/modes/extraction', 'open', 'extraction', 0.0, detail=str(u_)[:200])); return res
-    O.append(core.structural('C18/modes/interior_paths', True, 'paths per integrand (clamp case splits): upart1 %d, upart2 %d, vpart1 %d, vpart2 %d; the interior one is used' % (n1, n2, n3, n4), None, 'path-analysis', 'exactly one path of each integrand has no clamp active'))
+    O.append(core.structural('C18/modes/interior_paths', all(len(q) == 1 for q in (PU1, PU2, PV1, PV2)),
+                             'paths (clamp case splits) / paths taken on sampled interior points: upart1 %d/%d, upart2 %d/%d, vpart1 %d/%d, vpart2 %d/%d' % (n1, len(PU1), n2, len(PU2), n3, len(PV1), n4, len(PV2)), None, 'path-analysis',
+                             'each integrand has exactly one formula away from the 1e-14 end layers (a clamp active on a visible part of the domain changes the integrand there)'))
     hy = [eta < 1]
     rng = {eta: (0.05, 0.95), X: (0.0, 3.0), TAU: (0.05, 3.0), EPS: (0.1, 2.0)}
     lam1 = eta ** 2; lam2 = 1 + 1 / (EPS * eta)
-    u2 = sp.exp(-TAU) * U2
-    O.append(_fin(core.prove_zero('C18/modes/family1:radiation_equation', EPS * sp.diff(U1, TAU) - sp.diff(U1, X, 2) - (U1 / (1 - lam1) - U1), hy + h1, ranges=rng,
-                                  goal_text='epsilon u_tau = u_xx + (v - u) for the mode u = upart1(eta), v = u/(1 - eta^2) (the material mode forced by v_tau = u - v with decay rate eta^2)'), 'pde1'))
-    O.append(_fin(core.prove_zero('C18/modes/family2:radiation_equation', EPS * sp.diff(u2, TAU) - sp.diff(u2, X, 2) - (u2 / (1 - lam2) - u2), hy + h2, ranges=rng,
-                                  goal_text='epsilon u_tau = u_xx + (v - u) for the mode u = e^-tau upart2(eta), v = u/(1 - lambda), lambda = 1 + 1/(epsilon eta)'), 'pde2'))
-    O.append(_fin(core.prove_zero('C18/modes/family1:decay_rate', sp.diff(U1, TAU) + lam1 * U1, hy + h1, ranges=rng, goal_text='upart1 decays like e^(-eta^2 tau)'), 'pde1'))
-    O.append(_fin(core.prove_zero('C18/modes/family2:decay_rate', sp.diff(u2, TAU) + lam2 * u2, hy + h2, ranges=rng, goal_text='e^-tau upart2 decays like e^(-(1 + 1/(epsilon eta)) tau)'), 'pde2'))
-    for nm, U, h, kind in (('family1', U1, h1, 'bc1'), ('family2', U2, h2, 'bc2')):
-        e = (U - 2 / sp.sqrt(3) * sp.diff(U, X)).subs(X, 0)
-        O.append(_fin(core.prove_zero('C18/modes/%s:marshak_condition' % nm, e, hy + [c for c in h if not c.has(X)], ranges=rng, goal_text='u - (2/sqrt3) u_x = 0 at x = 0 for every mode (the constant 1 carries the boundary value)'), kind))
+    tag = lambda k: '' if k == 0 else '~path%d' % k
+    for k, (U1, h1, _) in enumerate(PU1):
+        O.append(_fin(core.prove_zero('C18/modes/family1:radiation_equation' + tag(k), EPS * sp.diff(U1, TAU) - sp.diff(U1, X, 2) - (U1 / (1 - lam1) - U1), hy + h1, ranges=rng,
+                                      goal_text='epsilon u_tau = u_xx + (v - u) for the mode u = upart1(eta), v = u/(1 - eta^2) (the material mode forced by v_tau = u - v with decay rate eta^2)'), 'pde1'))
+        O.append(_fin(core.prove_zero('C18/modes/family1:decay_rate' + tag(k), sp.diff(U1, TAU) + lam1 * U1, hy + h1, ranges=rng, goal_text='upart1 decays like e^(-eta^2 tau)'), 'pde1'))
+        e = (U1 - 2 / sp.sqrt(3) * sp.diff(U1, X)).subs(X, 0)
+        O.append(_fin(core.prove_zero('C18/modes/family1:marshak_condition' + tag(k), e, hy + [c for c in h1 if not c.has(X)], ranges=rng, goal_text='u - (2/sqrt3) u_x = 0 at x = 0 for every mode (the constant 1 carries the boundary value)'), 'bc1'))
+    for k, (U2, h2, _) in enumerate(PU2):
+        u2 = sp.exp(-TAU) * U2
+        O.append(_fin(core.prove_zero('C18/modes/family2:radiation_equation' + tag(k), EPS * sp.diff(u2, TAU) - sp.diff(u2, X, 2) - (u2 / (1 - lam2) - u2), hy + h2, ranges=rng,
+                                      goal_text='epsilon u_tau = u_xx + (v - u) for the mode u = e^-tau upart2(eta), v = u/(1 - lambda), lambda = 1 + 1/(epsilon eta)'), 'pde2'))
+        O.append(_fin(core.prove_zero('C18/modes/family2:decay_rate' + tag(k), sp.diff(u2, TAU) + lam2 * u2, hy + h2, ranges=rng, goal_text='e^-tau upart2 decays like e^(-(1 + 1/(epsilon eta)) tau)'), 'pde2'))
+        e = (U2 - 2 / sp.sqrt(3) * sp.diff(U2, X)).subs(X, 0)
+        O.append(_fin(core.prove_zero('C18/modes/family2:marshak_condition' + tag(k), e, hy + [c for c in h2 if not c.has(X)], ranges=rng, goal_text='u - (2/sqrt3) u_x = 0 at x = 0 for every mode (the constant 1 carries the boundary value)'), 'bc2'))
     # material integrands: v - u of the code is the companion mode minus the radiation mode
-    O.append(_fin(core.prove_zero('C18/modes/family2:material_integrand', V2 - (1 + EPS * eta) * U2, hy + h2 + h4, ranges=rng,
-                                  goal_text='vpart2 == (1 + epsilon eta) upart2, i.e. +e^-tau vpart2 is (v - u) of the mode -e^-tau upart2 with v = u/(1 - lambda) = -epsilon eta u'), 'v2'))
-    q = sp.sqrt(1 - eta ** 2)
-    U1q = U1.subs(eta, q)
-    O.append(_fin(core.prove_zero('C18/modes/family1:material_integrand', V1 - U1q * ((1 - eta ** 2) / eta ** 2) * (eta / q), hy + h3 + [c.subs(eta, q) for c in h1], ranges=rng,
-                                  goal_text='vpart1(eta) d eta == [lambda/(1-lambda) upart1](eta_u) |d eta_u|, eta_u = sqrt(1 - eta^2), lambda = eta_u^2: the v - u integral is the companion of the upart1 integral after the change of variable'), 'v1'))
+    k = 0
+    for (U2, h2, s2) in PU2:
+        for (V2, h4, s4) in PV2:
+            if not any(all(alg.eval_cond(c, q) for c in h4) for q in s2): continue
+            O.append(_fin(core.prove_zero('C18/modes/family2:material_integrand' + tag(k), V2 - (1 + EPS * eta) * U2, hy + h2 + h4, ranges=rng,
+                                          goal_text='vpart2 == (1 + epsilon eta) upart2, i.e. +e^-tau vpart2 is (v - u) of the mode -e^-tau upart2 with v = u/(1 - lambda) = -epsilon eta u'), 'v2')); k += 1
+    q = sp.sqrt(1 - eta ** 2); k = 0
+    for (U1, h1, s1) in PU1:
+        U1q = U1.subs(eta, q); h1q = [c.subs(eta, q) for c in h1]
+        for (V1, h3, s3) in PV1:
+            if not any(all(alg.eval_cond(c, pt_) for c in h1q) for pt_ in s3): continue
+            O.append(_fin(core.prove_zero('C18/modes/family1:material_integrand' + tag(k), V1 - U1q * ((1 - eta ** 2) / eta ** 2) * (eta / q), hy + h3 + h1q, ranges=rng,
+                                          goal_text='vpart1(eta) d eta == [lambda/(1-lambda) upart1](eta_u) |d eta_u|, eta_u = sqrt(1 - eta^2), lambda = eta_u^2: the v - u integral is the companion of the upart1 integral after the change of variable'), 'v1')); k += 1
     # vacuity guard: without the exchange term the radiation equation must NOT hold for these modes
+    U1, h1, _ = PU1[0]
     probe = core.prove_zero('C18/modes/probe', EPS * sp.diff(U1, TAU) - sp.diff(U1, X, 2), hy + h1, ranges=rng)
     res['vacuity'] = {'witness_checks': 1, 'must_fail_probes': 1, 'must_fail_caught': int(probe['status'] == 'refuted')}
     if probe['status'] != 'refuted': res['engine_errors'].append('vacuity probe not refuted: %s' % probe['status'])
@@ -176,6 +204,21 @@ def unit_assembly():
     return res
 
 
+CONV_NATIVE = r"""
+import json, math
+import exactpack.solvers.suolson.timmes as T
+bad = {}
+for (time, z, Tbc, opac, alpha) in ((1e-9, 0.4, 1.0e3, 1.0, 3.02636565993931701e-14), (2e-9, 0.3, 500.0, 2.0, 6.0e-14), (5e-10, 0.5, 2.0e3, 0.7, 1.5e-14)):
+    clight = 2.99792458e10; asol = 4.0 * 5.67051e-5 / clight
+    xpos = math.sqrt(3.0) * opac * z; tau = 4.0 * asol * clight * opac * time / alpha; eps = 4.0 * asol / alpha
+    u = T.usolution(xpos, tau, eps); v = T.vsolution(xpos, tau, eps, u)
+    erad, trad, trad_ev, tmat, tmat_ev = T.so_wave(time, z, Tbc, opac, alpha)
+    for n, got, want in (('T_rad', trad_ev, Tbc * u ** 0.25), ('T_mat', tmat_ev, Tbc * max(v, 0.0) ** 0.25)):
+        if abs(got - want) > 1e-6 * abs(want): bad['%s at opac=%g alpha=%g Tbc=%g' % (n, opac, alpha, Tbc)] = [got, want]
+print(json.dumps({'reproduced': bool(bad), 'so_wave vs T_bc * (dimensionless solution at the stated x, tau, epsilon)^(1/4)': bad}))
+"""
+
+
 def unit_conversion():
     res = {'obligations': [], 'functions': _finfo('so_wave', 'suolson'), 'engine_errors': []}; O = res['obligations']
     tm, z, Tbc, kap, al = sp.symbols('time zpos trad_bc_ev opac alpha', positive=True)
@@ -200,7 +243,9 @@ def unit_conversion():
     O.append(core.prove_zero('C18/conversion/trad_ev^4=u*Tbc^4', trad_ev ** 4 - u * Tbc ** 4, [], goal_text='T_rad = T_bc u^(1/4)'))
     O.append(core.prove_zero('C18/conversion/tmat_ev^4=v*Tbc^4', tmat_ev ** 4 - v * Tbc ** 4, [], goal_text='T_mat = T_bc v^(1/4)'))
     O.append(core.prove_zero('C18/conversion/erad=u*a*Tbc^4', erad - u * asol * (Tbc / kev) ** 4, [], goal_text='radiation energy density == u a T_bc^4 (kelvin)'))
-    for o in O: o.pop('cex_raw', None)
+    for o in O:
+        o.pop('cex_raw', None)
+        if o['status'] == 'refuted' and not o.get('replay'): o['replay'] = CONV_NATIVE
     # the array driver: every point through so_wave with the caller's parameters, t <= 0 gives NaN
     fv = R.func_ref('%s::suolson' % MOD); src = ast.unparse(fv.node).replace(' ', '')
     O.append(core.structural('C18/conversion/driver_pointwise', 'so_wave(t,zpos,trad_bc_ev,opac,alpha)' in src and 'zpos=x[i]' in src and 'trad_ev[i]=trad_ev_out' in src and 'tmat_ev[i]=tmat_ev_out' in src,
